@@ -339,7 +339,8 @@ func hasRuleTableBetweenCode(c Case) bool {
 
 var (
 	reBlankRun  = regexp.MustCompile(`\n{3,}`)
-	reSeparator = regexp.MustCompile(`^\|(-----\|)+$`)
+	// any spelling of a GFM delimiter row (the masks must not depend on how the exporter spells it)
+	reSeparator = regexp.MustCompile(`^\|[ \t]*:?-+:?[ \t]*(\|[ \t]*:?-+:?[ \t]*)*\|?[ \t]*$`)
 )
 
 func normBlankLines(md string) string {
@@ -349,7 +350,7 @@ func normBlankLines(md string) string {
 // normFrontMatter removes the front matter block and, from a second export, what its re-import left behind:
 // the blank line of the thematic-break paragraph and the level-2 heading 'title: "Document"' (ATX or setext,
 // with the emphasis of the heading style).
-var reFrontHeading = regexp.MustCompile("^(## [*_]{0,3}title: \"Document\"[*_]{0,3}|[*_]{0,3}title: \"Document\"[*_]{0,3}\\n-+)\\n\\n")
+var reFrontHeading = regexp.MustCompile("^(## [*_]{0,3}title: \"Document\"[*_]{0,3}|[*_]{0,3}title: \"Document\"[*_]{0,3}\\n-+)\\n*")
 
 func normFrontMatter(_ Case, md string) string {
 	rest, ok := stripFrontMatter(md)
